@@ -353,7 +353,7 @@ def run_case(case, oracle="plain"):
                             if data[sid] == R.decode_bitmap(hi << (16 + lo), D.labels_of(sn) or {}):
                                 kname += ":hi<<(16+lo)"
                         if sid in alts and D.match_derived(data[sid], alts[sid][0]):
-                            kname += ":" + alts[sid][1]
+                            kname += ":" + alts[sid][1] + ":" + var   # the model is part of the finding's identity
                         key = f"C13:{fam}:{kname}"
                         if key not in {v["key"] for v in violations}:
                             violations.append(viol(key,
